@@ -24,6 +24,7 @@ func calculateNextQuota(
 	upstreamTotal proxyv1alpha1.RateLimitItemConfiguration,
 	upstreamUsed proxyv1alpha1.RateLimitItemStatus,
 	flowControlConfig proxyv1alpha1.RateLimitItemConfiguration,
+	recordedConfig proxyv1alpha1.RateLimitItemConfiguration,
 	flowControlStatus proxyv1alpha1.RateLimitItemStatus,
 	clientCount int,
 	condition *proxyv1alpha1.RateLimitCondition,
@@ -38,6 +39,9 @@ func calculateNextQuota(
 	flowControlType := flowcontrol.GetFlowControlTypeFromLimitItem(upstreamTotal.LimitItemDetail)
 
 	current := float64(getLimitQuota(flowControlConfig.LimitItemDetail, flowControlType))
+	// the quota on record for this client, zero for a client without a record. It differs from the
+	// quota the client reports when the record was cleaned up or a previous answer was lost.
+	recorded := float64(getLimitQuota(recordedConfig.LimitItemDetail, flowControlType))
 	used := float64(getLimitQuota(flowControlStatus.LimitItemDetail, flowControlType))
 
 	total := float64(getLimitQuota(upstreamTotal.LimitItemDetail, flowControlType))
@@ -148,11 +152,12 @@ func calculateNextQuota(
 		next = total * MinimumQuotaPercent
 	}
 
-	// never allocate more than what is left. remaining is negative when the
-	// upstream is over-committed (e.g. the global limit was lowered), the quota
-	// must shrink then.
-	if next-current > remaining {
-		next = current + remaining
+	// never allocate more than what is left. remaining is computed from the quotas
+	// on record, so the quota may only grow from what is on record for this client,
+	// not from what it reports. remaining is negative when the upstream is
+	// over-committed (e.g. the global limit was lowered), the quota must shrink then.
+	if next-recorded > remaining {
+		next = recorded + remaining
 	}
 	if next > total {
 		next = total
